@@ -170,6 +170,118 @@ def ring1_model_replay(ctx, b):
     ctx.cov.setdefault("model_drift", 0)
 
 
+STEP_OPS = {1: "start", 2: "lock", 3: "unlock", 4: "cwrel", 5: "cwacq", 6: "signal", 7: "create", 8: "join"}
+
+
+def convert_steps(path):
+    """scheduler step log -> executions of pthread-call events (the post-unlock scheduling point is not a call)"""
+    execs, cur = [], None
+    for line in open(path):
+        try:
+            e = json.loads(line)
+        except ValueError:
+            continue
+        if e["e"] == "begin":
+            cur = []
+            execs.append(cur)
+        elif cur is None:
+            continue
+        elif e["e"] == "step":
+            if e["op"] in STEP_OPS:
+                cur.append({"e": STEP_OPS[e["op"]], "t": e["t"], "o1": e.get("o1", 0), "o2": e.get("o2", 0), "w": 99})
+        elif e["e"] == "wake":
+            if cur and cur[-1]["e"] == "signal" and cur[-1]["o1"] == e["c"] and cur[-1]["w"] == 99:
+                cur[-1]["w"] = e["t"]
+            else:       # a second thread woken by one call (broadcast): no counterpart in the model
+                cur.append({"e": "signal", "t": cur[-1]["t"] if cur else 0, "o1": e["c"], "o2": 0, "w": e["t"]})
+        elif e["e"] == "exit":
+            cur.append({"e": "exit", "t": e["t"], "o1": 0, "o2": 0, "w": 99})
+        elif e["e"] == "spurious":
+            cur.append({"e": "spurious", "t": 0, "o1": e["c"], "o2": 0, "w": e["t"]})
+    return execs
+
+
+def validate_steps(ctx, wd, execs, MT, J, ordered, tag):
+    """-> (number of executions that are behaviours of ThreadPool.tla, list of (index, furthest line) of the others)"""
+    if not execs:
+        return 0, []
+    tp = os.path.join(wd, "steps_%s.ndjson" % tag)
+    with open(tp, "w") as f:
+        for i, ev in enumerate(execs):
+            f.write(json.dumps({"x": i + 1, "ev": ev}, separators=(",", ":")) + "\n")
+    cfgp = os.path.join(wd, "steps_%s.cfg" % tag)
+    tmpl = open(os.path.join(core.SPEC, "Trace_TPSteps.cfg.tmpl")).read()
+    open(cfgp, "w").write(tmpl.replace("@MT@", str(MT)).replace("@J@", str(J)).replace("@ORD@", "TRUE" if ordered else "FALSE"))
+    r = core.tlc("Trace_TPSteps", cfgp, workers=1, timeout=1800, env={"TRACE": tp}, extra=["-nowarning"])
+    os.unlink(tp)
+    import re
+    m = re.search(r'"REJECTED",\s*\{(.*?)\}\s*>>', r.out, re.S)
+    if r.ok and not m:
+        return len(execs), []
+    if not m:
+        raise core.Infra("Trace_TPSteps run failed:\n" + r.out[-2500:])
+    bad = [(int(a), int(b_)) for a, b_ in re.findall(r"<<(\d+),\s*(\d+)>>", m.group(1))]
+    return len(execs) - len(bad), bad
+
+
+def ring1_steps(ctx, b):
+    """code -> TLC at pthread-call granularity: the scheduler's log of every pthread call the real threadpool.c made
+    (with the thread each signal woke) must be a behaviour of ThreadPool.tla (Trace_TPSteps). A rejected execution means the
+    model no longer describes the code (model_drift, reported in the evidence; the verdicts rest on PoolAbs)."""
+    prog = build.compile_prog("sched", "pool_drv", ["pool_drv.c", "vs_sched.c"], extra_flags=["-I", os.path.join(build.REPO, "mtbl")])
+    wd = ctx.sub("steps")
+    runs = 40 if ctx.quick() else 600
+    n = 0
+    for (P, J) in [(1, 2), (2, 3), (3, 4)] + ([] if ctx.quick() else [(2, 6), (4, 5), (1, 0)]):
+        for ordered in (1, 0):
+            for (mode, npre, sp) in [(0, 0, 0), (0, 0, 20), (1, 3, 0)]:
+                out = os.path.join(wd, "e.ndjson")
+                lg = os.path.join(wd, "steps.log")
+                if os.path.exists(lg):
+                    os.unlink(lg)
+                seed0 = ctx.seed % 100000 + 31 * n
+                p = subprocess.run([prog, out, str(P), str(J), str(ordered), "1", str(runs), str(seed0), str(sp), str(mode), str(npre)],
+                                   stdout=subprocess.PIPE, stderr=subprocess.PIPE, text=True, timeout=600, env=dict(os.environ, VS_LOG=lg))
+                n += 1
+                if p.returncode != 0:
+                    continue            # deadlocks / crashes are judged by ring 1
+                execs = convert_steps(lg)
+                good, bad = validate_steps(ctx, wd, execs, P, J, ordered, "r1")
+                ctx.add("step_traces_conforming", good)
+                ctx.add("step_trace_events", sum(len(e) for e in execs))
+                ctx.add("model_drift_steps", len(bad))
+                if bad and len(ctx.notes) < 6:
+                    x, ln = bad[0]
+                    ctx.notes.append("ThreadPool.tla does not explain pthread call %d of an execution (pool %d, jobs %d, ordered %d, seed %d+%d): %s" % (
+                        ln, P, J, ordered, seed0, x - 1, json.dumps(execs[x - 1][ln - 1]) if ln - 1 < len(execs[x - 1]) else "end"))
+    ctx.cov.setdefault("model_drift_steps", 0)
+
+
+def steps_of_run(ctx, wd, lg, MT, ordered, tag):
+    """pthread-call traces of pooled writers / sorters (one pool, one client) against ThreadPool.tla; Jobs = number of dispatches"""
+    if not os.path.exists(lg):
+        return
+    execs = convert_steps(lg)
+    os.unlink(lg)
+    groups = {}
+    for e in execs:
+        if not any(x["e"] == "exit" and x["t"] == 1 for x in e):
+            continue                    # the run did not complete (judged elsewhere)
+        J = sum(1 for x in e if x["e"] == "lock" and x["t"] == 0 and x["o1"] == 1) - 1
+        groups.setdefault(J, []).append(e)
+    for J, es in sorted(groups.items()):
+        if J < 0:
+            continue
+        good, bad = validate_steps(ctx, wd, es, MT, J, ordered, tag)
+        ctx.add("step_traces_conforming", good)
+        ctx.add("step_trace_events", sum(len(e) for e in es))
+        ctx.add("model_drift_steps", len(bad))
+        if bad and len(ctx.notes) < 6:
+            x, ln = bad[0]
+            ctx.notes.append("ThreadPool.tla does not explain pthread call %d of a pooled %s execution (pool %d, %d dispatches): %s" % (
+                ln, "writer" if ordered else "sorter", MT, J, json.dumps(es[x - 1][ln - 1]) if ln - 1 < len(es[x - 1]) else "end"))
+
+
 def ring2(ctx, b):
     """pooled writers under the scheduler: file identical to the pool-less file"""
     rng = ctx.rng
@@ -199,8 +311,12 @@ def ring2(ctx, b):
                     cfg = gen.writer_cfg(comp=comp, pool=0)
                     lines += ["scratch " + wd, "pool_init 0 %d" % P] + gen.write_table_lines(0, pth, cfg, entries) + ["pool_destroy 0", "---"]
                 seed0 = ctx.seed % 100000 + P * 1000 + mode * 100
+                lg = os.path.join(wd, "steps.log")
+                if os.path.exists(lg):
+                    os.unlink(lg)
                 evs, rc, err = core.run_drv(b, "\n".join(lines) + "\n", wd, "s", fork=True, timeout=1200,
-                                            env={"VS_SEED": str(seed0), "VS_SPUR": str(sp), "VS_MODE": str(mode), "VS_NPRE": str(npre)})
+                                            env={"VS_SEED": str(seed0), "VS_SPUR": str(sp), "VS_MODE": str(mode), "VS_NPRE": str(npre), "VS_LOG": lg})
+                steps_of_run(ctx, wd, lg, P, True, "w")
                 cur = None
                 k = -1
                 for e in evs:
@@ -245,8 +361,12 @@ def ring3(ctx, b):
             L += ["s_iter 0 1", "it_drain 1", "it_destroy 1", "s_destroy 0", "pool_destroy 0", "---"]
             lines += L
         seed0 = ctx.seed % 100000 + 50000 + P
+        lg = os.path.join(wd, "steps.log")
+        if os.path.exists(lg):
+            os.unlink(lg)
         evs, rc, err = core.run_drv(b, "\n".join(lines) + "\n", wd, "s%d" % P, fork=True, timeout=1200,
-                                    env={"VS_SEED": str(seed0), "VS_SPUR": "10", "VS_MODE": str(P % 2), "VS_NPRE": "3"})
+                                    env={"VS_SEED": str(seed0), "VS_SPUR": "10", "VS_MODE": str(P % 2), "VS_NPRE": "3", "VS_LOG": lg})
+        steps_of_run(ctx, wd, lg, P, False, "s")
         recs = core.convert_events(evs)
         out = []
         for ex in core.split_execs(recs):
@@ -293,6 +413,7 @@ def run(ctx):
     ring1(ctx, b)
     ring1_systematic(ctx, b)
     ring1_model_replay(ctx, b)
+    ring1_steps(ctx, b)
     ring2(ctx, b)
     ring3(ctx, b)
     real_threads(ctx)
